@@ -5,6 +5,7 @@ Property theorems only; helper lemmas are in `Lemmas/Dgram.lean`, `Lemmas/DgramC
 -/
 import SshuttleModel.Spec.Dgram
 import SshuttleModel.Lemmas.DgramClient
+import SshuttleModel.Lemmas.DgramAssoc
 import SshuttleModel.Lemmas.DgramPins
 
 namespace Sshuttle.Dgram
@@ -215,5 +216,151 @@ theorem C11_close_server (cfg : Cfg) (now : Nat) (s : SSys) (sc : Script) (chan 
   unfold srvGot
   simp only [halive, Option.isSome_none, Bool.false_eq_true, if_false, e1, e2, e3, e4, if_true, hopen,
     not_true_eq_false, hmap]
+
+/-! ## 5. One association per source while it lives — every event sequence, every errno -/
+
+/-- **Client: while a source's association lives it keeps its id.**  For every configuration and
+every sequence of client events (captures from this and other sources, DNS captures, other
+accepts, sweeps, ids taken/released by other flows, arbitrary incoming frames), each seeing an
+arbitrary clock reading: if at every event the association has not reached its deadline
+(`AliveThrough`) and the client has not stopped, the source is still associated with the *same*
+id at the end — so (`C11_same_id_while_associated`) every one of its datagrams in between was
+queued on that id without a new UDP_OPEN, i.e. leaves from the one server socket of the id. -/
+theorem C11_one_association_per_source (cfg : Cfg) (src : Addr) (chan t : Nat) (s : CSys)
+    (ops : List (Nat × COp)) (h0 : lookup src s.c.udpBySrc = some (chan, t))
+    (halive : AliveThrough cfg src s ops = true) (hrun : (s.run cfg ops).dead = none) :
+    ∃ t', lookup src (s.run cfg ops).c.udpBySrc = some (chan, t') :=
+  assoc_survives_run ops h0 halive hrun
+
+/-- Non-vacuity: after a first datagram at clock 0, a DNS capture at 100, a second datagram at
+29 s and an unrelated accept at 59 s satisfy `AliveThrough`, and the association still has id 1. -/
+example :
+    let cfg : Cfg := { method := .tproxy }
+    let src : Addr := ⟨[49], 4000, []⟩
+    let cap : Capture := ⟨2, src, some ⟨[57], 53, []⟩, [44, 44]⟩
+    let s0 := CSys.run cfg {} [(0, .udp cap)]
+    let ops : List (Nat × COp) := [(100, .dns cap), (29696, .udp cap), (60416, .accept)]
+    lookup src s0.c.udpBySrc = some (1, 30720) ∧ AliveThrough cfg src s0 ops = true ∧
+    (s0.run cfg ops).dead = none ∧ lookup src (s0.run cfg ops).c.udpBySrc = some (1, 60416) := by
+  decide
+
+/-- **Server: a failing `sendto` of ANY errno leaves the association in place.**  Whatever the
+scripted outcome of the call (success, an errno in `NET_ERRS`, EPERM, EINVAL, EMSGSIZE, …), the
+only thing `udp_req` changes is the log of the attempted datagram: the handler, its socket, the
+id → handler map and `mux.channels` are exactly as before, and the server keeps running. -/
+theorem C11_send_error_keeps_association (cfg : Cfg) (now : Nat) (s : SSys) (sc : Script) (chan : Nat)
+    (ip : Bytes) (port : Nat) (data : Bytes) (h : UdpH) (hid : Nat)
+    (hip : comma ∉ ip) (halive : s.dead = none) (hopen : s.chans.contains chan = true)
+    (hmap : lookup chan s.udphandlers = some hid) (hh : s.udpH.find? (·.hid = hid) = some h) :
+    let s' := (srvGot cfg now ⟨chan, CMD_UDP_DATA, mkHdr ip port ++ data⟩ sc s).1
+    s'.dead = none ∧ s'.udpH = s.udpH ∧ s'.udphandlers = s.udphandlers ∧ s'.chans = s.chans ∧
+    s'.out = s.out ∧ s'.usends = s.usends ++ [⟨chan, h.sock, ip, port, data, sc.popResult.1⟩] := by
+  intro s'
+  have e : s' = _ := C11_one_to_one_server cfg now s sc chan ip port data h hid hip halive hopen hmap hh
+  rw [e]
+  exact ⟨halive, rfl, rfl, rfl, rfl, rfl⟩
+
+/-- **Server: all datagrams of one id leave from one socket, send errors or not.**  A whole
+batch of UDP_DATA frames for an open association, read in one round, with any script of
+`sendto` outcomes: exactly one `sendto` per frame, in order, each with its own destination and
+payload, every one on the association's socket; afterwards the association is as before. -/
+theorem C11_batch_one_socket (cfg : Cfg) (now chan hid : Nat) (h : UdpH)
+    (ds : List (Bytes × Nat × Bytes)) :
+    ∀ (s : SSys) (sc : Script), s.dead = none → s.chans.contains chan = true →
+      lookup chan s.udphandlers = some hid → s.udpH.find? (·.hid = hid) = some h →
+      (∀ d ∈ ds, comma ∉ d.1) →
+      let s' := (srvGotAll cfg now (ds.map fun d => ⟨chan, CMD_UDP_DATA, mkHdr d.1 d.2.1 ++ d.2.2⟩) sc s).1
+      s'.dead = none ∧ s'.udpH = s.udpH ∧ s'.udphandlers = s.udphandlers ∧ s'.chans = s.chans ∧
+      ∃ outcomes : List (Option Nat), outcomes.length = ds.length ∧
+        s'.usends = s.usends ++ (ds.zip outcomes).map fun p => ⟨chan, h.sock, p.1.1, p.1.2.1, p.1.2.2, p.2⟩ := by
+  induction ds with
+  | nil =>
+    intro s sc h1 _ _ _ _
+    exact ⟨h1, rfl, rfl, rfl, [], rfl, by simp [srvGotAll]⟩
+  | cons d ds ih =>
+    intro s sc h1 h2 h3 h4 h5
+    obtain ⟨a1, a2, a3, a4, _, a6⟩ := C11_send_error_keeps_association cfg now s sc chan d.1 d.2.1 d.2.2 h hid
+      (h5 d (by simp)) h1 h2 h3 h4
+    simp only [List.map_cons, srvGotAll]
+    generalize hg : srvGot cfg now ⟨chan, CMD_UDP_DATA, mkHdr d.1 d.2.1 ++ d.2.2⟩ sc s = r at a1 a2 a3 a4 a6
+    obtain ⟨s1, sc1⟩ := r
+    simp only at a1 a2 a3 a4 a6 ⊢
+    obtain ⟨b1, b2, b3, b4, outs, b5, b6⟩ := ih s1 sc1 a1 (by rw [a4]; exact h2) (by rw [a3]; exact h3)
+      (by rw [a2]; exact h4) (fun d' hd' => h5 d' (List.mem_cons_of_mem _ hd'))
+    refine ⟨b1, b2.trans a2, b3.trans a3, b4.trans a4, sc.popResult.1 :: outs, by simp [b5], ?_⟩
+    rw [b6, a6]
+    simp
+
+/-! ## 6. Both ends agree on closing; one clock -/
+
+/-- **After UDP_CLOSE neither side holds the id.**  Client side: `C11_expiry` (entry gone from
+`udp_by_src`, id free in `mux.channels`, exactly one UDP_CLOSE queued).  Server side, for that
+frame: the id leaves the server's `mux.channels` at once, the handler is retired, and the sweep
+that ends the same round drops the id → handler entry, so a later UDP_OPEN for the id is
+accepted (`C11_open_one_socket`) — the precondition whose violation is the F19 finding. -/
+theorem C11_close_both_ends (cfg : Cfg) (now now' : Nat) (s : SSys) (sc : Script) (chan hid : Nat) (h : UdpH)
+    (halive : s.dead = none) (hopen : s.chans.contains chan = true) (hnodup : s.chans.Nodup)
+    (hmap : lookup chan s.udphandlers = some hid) (hh : s.udpH.find? (·.hid = hid) = some h)
+    (huniq : ∀ p ∈ s.udphandlers, p.1 = chan → p.2 = hid) :
+    (srvSweep now' (srvGot cfg now ⟨chan, CMD_UDP_CLOSE, []⟩ sc s).1).chans.contains chan = false ∧
+    hasKey chan (srvSweep now' (srvGot cfg now ⟨chan, CMD_UDP_CLOSE, []⟩ sc s).1).udphandlers = false ∧
+    (srvSweep now' (srvGot cfg now ⟨chan, CMD_UDP_CLOSE, []⟩ sc s).1).dead = none := by
+  rw [C11_close_server cfg now s sc chan hid halive hopen hmap]
+  refine ⟨?_, ?_, halive⟩
+  · simp only [srvSweep, List.contains_eq_mem, decide_eq_false_iff_not]
+    exact fun hm => (List.Nodup.not_mem_erase hnodup) hm
+  · rw [hasKey_eq_false_iff]
+    intro p hp
+    simp only [srvSweep, List.mem_filter] at hp
+    obtain ⟨hp1, hp2⟩ := hp
+    intro hk
+    have hp3 := huniq p hp1 hk
+    rw [hp3, find_map_retire s.udpH hid h hh] at hp2
+    simp at hp2
+
+/-- **One clock.** The deadline of an association is written from the clock reading `now` its
+capture saw (`now + 30 s`), survives that capture's own sweep, and every later sweep compares it
+with the clock reading *it* is given: the entry stays exactly while that reading is not beyond
+the deadline.  In the Python all these readings come from the same call (pinned below); the model
+has one `now` parameter per event, so a stamp is never compared in another clock's domain. -/
+theorem C11_one_clock {cfg : Cfg} {now : Nat} {cap : Capture} {c c' : Client} {fr : List Frame}
+    {src d : Addr} {data : Bytes}
+    (hr : recvUdp cfg.method cfg.recvMax cap = some (src, some d, data))
+    (h : onacceptUdp cfg now cap c = .ok (c', fr)) (hfr : fr ≠ []) :
+    (∃ chan, lookup src c'.udpBySrc = some (chan, now + cfg.udpHorizonS * cfg.ticksPerS)) ∧
+    ∀ now' c'' fr', expire now' c' = .ok (c'', fr') →
+      (now' ≤ now + cfg.udpHorizonS * cfg.ticksPerS →
+        ∃ chan, lookup src c''.udpBySrc = some (chan, now + cfg.udpHorizonS * cfg.ticksPerS)) ∧
+      (∀ p ∈ c''.udpBySrc, ¬ p.2.2 < now') := by
+  have hl : ∃ chan, lookup src c'.udpBySrc = some (chan, now + cfg.udpHorizonS * cfg.ticksPerS) := by
+    unfold onacceptUdp at h
+    rw [hr] at h
+    simp only at h
+    split at h
+    · simp only [Except.ok.injEq, Prod.mk.injEq] at h; exact absurd h.2.symm hfr
+    · next c1 ch ops hal =>
+      split at h
+      · cases h
+      · next c3 cl he =>
+        simp only [Except.ok.injEq, Prod.mk.injEq] at h
+        obtain ⟨rfl, _⟩ := h
+        obtain ⟨_, _, _, _, e5, _⟩ := expire_ok he
+        exact ⟨ch, by rw [e5]; exact lookup_filter _ (lookup_set_self _ _ _) (by simp)⟩
+  refine ⟨hl, ?_⟩
+  intro now' c'' fr' he
+  obtain ⟨_, _, _, _, e5, _⟩ := expire_ok he
+  refine ⟨?_, ?_⟩
+  · intro hle
+    obtain ⟨chan, hc⟩ := hl
+    exact ⟨chan, by rw [e5]; exact lookup_filter _ hc (by simp; omega)⟩
+  · intro p hp
+    rw [e5] at hp
+    simpa using (List.mem_filter.1 hp).2
+
+/-- Pin: every deadline is written and compared with the same clock call. -/
+example : Gen.C11.CLOCK_READS =
+    ["client.onaccept_tcp:time.time", "client.onaccept_udp:time.time", "client.ondns:time.time",
+     "server.DnsProxy.__init__:time.time", "server.UdpProxy.__init__:time.time", "server.main:time.time"] := by
+  decide
 
 end Sshuttle.Dgram
